@@ -16,7 +16,8 @@ RULE = ("a stream = optional marker-free garbage prefix + 1..4 V3 packets (hands
         "sizes incl. 0/1/13..16/30.., payloads containing 83 70 and ending in 83); a case = (stream, segmentation). Protocol driver: a real "
         "_LanProtocolV3 is fed segment by segment through data_received and drained with read(timeout=0) after every segment; the "
         "cumulative delivered list must equal exactly the payloads of the packets whose last byte has arrived (exactly-once, order, "
-        "completeness, promptness). Full-stack driver: the simulated V3 device writes its reply stream in chosen segments at chosen "
+        "completeness, promptness). Timed driver: the segments of 1..3 streams arrive at chosen virtual instants (gaps 0, 1 ms .. 7 s, 45 s) while a reader task "
+        "loops over read(timeout in {0.5, 2, 5}) (reads time out in the gaps and are re-issued); every packet must be returned once, in order, at the instant its last byte arrived. Full-stack driver: the simulated V3 device writes its reply stream in chosen segments at chosen "
         "virtual times; frames returned by consecutive LAN.send calls must equal the frames sent and the first send must return at the "
         "virtual instant the last byte of the first packet arrived. distinct = (stream id, cut positions); non-trivial = at least one cut "
         "or more than one packet or a garbage prefix")
@@ -123,6 +124,16 @@ def generate(ctx, rng):
             k = rng.choice([0, 1, 2, 5, n - 1])
             segs.append(sorted(rng.sample(range(1, n), min(k, n - 1))) if n > 1 else [])
         yield ("chain", j), {"kind": "chain", "streams": picks, "cuts": segs}
+    # the same with real (virtual) time between the segments and a reader whose reads time out in the gaps
+    for j in range(400 if quick else 12000):
+        picks = [rng.choice(streams) for _ in range(rng.randint(1, 3))]
+        segs = []
+        for s in picks:
+            n = len(s["g"]) + sum(len(_mk_packet(p, i)[0]) for i, p in enumerate(s["p"]))
+            k = rng.choice([0, 1, 1, 2, 3, 6])
+            segs.append(sorted(rng.sample(range(1, n), min(k, n - 1))) if n > 1 else [])
+        yield ("timed", j), {"kind": "timed", "streams": picks, "cuts": segs, "tseed": rng.getrandbits(32),
+                             "read_timeout": rng.choice([0.5, 2, 2, 5])}
     # full-stack
     nfs = 260 if quick else 6000
     for j in range(nfs):
@@ -131,7 +142,7 @@ def generate(ctx, rng):
         glen = rng.choice([0, 0, 0, 3, 11])
         yield ("fs", j), {"kind": "fullstack", "frames": frames, "garbage": _garbage(rng, glen, rng.random() < 0.5),
                           "ncuts": rng.choice([0, 1, 2, 3, 5, 9, 30, 10 ** 6]), "cseed": rng.getrandbits(32),
-                          "gap": rng.choice([0.0, 0.05, 0.3, 0.45])}
+                          "gap": rng.choice([0.0, 0.05, 0.3, 0.45, 1.2, 1.7])}
 
 
 def _read_now(proto):
@@ -195,6 +206,8 @@ def run_case(ctx, case):
     kind = case["kind"]
     if kind == "fullstack":
         return _fullstack(ctx, case)
+    if kind == "timed":
+        return _timed(ctx, case)
     if kind == "chain":
         proto = _LanProtocolV3()
         proto._local_key = KEY
@@ -236,6 +249,80 @@ def run_case(ctx, case):
             if bad > 3:
                 break
         ctx.count((sid, cuts), kind=f"exhaustive-{len(cuts)}cut")
+
+
+def _timed(ctx, case):
+    """Segments arrive at chosen virtual instants (gaps 0 .. hours); a reader task reads with a timeout in a loop (reads
+    time out in the long gaps and are re-issued).  Every packet must be returned, once, in order, at the instant its
+    last byte arrived."""
+    import random
+    r = random.Random(case["tseed"])
+    plan = []          # (gap before the segment, bytes)
+    due = []           # (index of the segment completing the packet, payload)
+    for stream, cuts in zip(case["streams"], case["cuts"]):
+        wire, ends, expected = _prep(stream)
+        bounds = [0] + list(cuts) + [len(wire)]
+        base = len(plan)
+        for a, b in zip(bounds, bounds[1:]):
+            plan.append((r.choice([0.0, 0.0, 0.001, 0.3, 0.9, 1.3, 2.5, 7.0, 45.0]), wire[a:b]))
+        for e, payload in zip(ends, expected):
+            due.append((base + next(i for i, b in enumerate(bounds[1:]) if b >= e), payload))
+    rt = case["read_timeout"]
+    arrival = []
+    got = []
+    info = {"timeouts": 0, "feeding": True, "err": None}
+
+    async def go(loop):
+        proto = _LanProtocolV3()
+        proto._local_key = KEY
+
+        async def reader():
+            idle = 0
+            while idle < 2:
+                try:
+                    v = await proto.read(timeout=rt)
+                    got.append((loop.time(), bytes(v)))
+                except (TimeoutError, asyncio.TimeoutError):
+                    info["timeouts"] += 1
+                    if not info["feeding"]:
+                        idle += 1
+                except Exception as e:  # noqa: BLE001
+                    info["err"] = e
+                    return
+
+        task = asyncio.ensure_future(reader())
+        await asyncio.sleep(r.choice([0.0, 0.1, 2.5, 6.0]))       # the reader may already have timed out before anything arrives
+        for gap, seg in plan:
+            await asyncio.sleep(gap)
+            arrival.append(loop.time())
+            proto.data_received(seg)
+        info["feeding"] = False
+        await task
+
+    key_ = ("timed", case["tseed"])
+    try:
+        H.run_virtual(go, H.new_net())
+    except Exception as e:  # noqa: BLE001
+        ctx.count(key_, kind="timed-raised")
+        ctx.violation("reassembly-raises", f"{type(e).__name__}: {e} (timed delivery)", case)
+        return
+    ctx.count(key_, kind="timed-delivery", sample={"segments": len(plan), "packets": len(due), "read_timeouts": info["timeouts"],
+                                                   "read_timeout": rt, "gaps": [g for g, _ in plan][:10]})
+    ctx.bump("timed-read-timeouts", info["timeouts"])
+    if info["err"] is not None:
+        ctx.violation("reassembly-raises", f"read raised {type(info['err']).__name__}: {info['err']} (timed delivery)", case)
+        return
+    want = [p for _, p in due]
+    have = [p for _, p in got]
+    if have != want:
+        mech = "packet-late-or-lost" if len(have) < len(want) else ("packet-early-or-duplicated" if len(have) > len(want) else "packet-content")
+        ctx.violation(mech, f"timed delivery: {len(have)} packets returned by read(), {len(want)} sent ({info['timeouts']} reads timed out)", case,
+                      {"gaps": [g for g, _ in plan]})
+        return
+    for (t, _), (seg_i, _) in zip(got, due):
+        if abs(t - arrival[seg_i]) > 1e-9:
+            ctx.violation("packet-late-or-lost", f"timed delivery: packet returned at {t:.3f}, its last byte arrived at {arrival[seg_i]:.3f}", case)
+            return
 
 
 def _fullstack(ctx, case):
